@@ -23,7 +23,7 @@ TRUSTED = ['numpy.interp modelled as: x > xp[-1] -> right, x < xp[0] -> left, el
            'float nan -> int32 cast gives INT_MIN (x86-64); np.round is round-half-even',
            'cftime date2num is exact on dyadic offsets (checked per case against the rational value)']
 ASSUMPTIONS = ['theorems are over exact integers in a dyadic unit; binary64 rounding of the fractional index within a few ulp of an '
-               'edge/midpoint is outside the model and covered only by the float stream + Python oracle (known finding C16-float-edge)',
+               'edge/midpoint is outside the model and covered only by the float stream + Python oracle (former finding C16-float-edge, repaired by faed7f7)',
                'the model describes val2idx as repaired by fixes/C16-val2idx-*.patch (pending fix: commits); run against a tree without '
                'them the corpus cases corpus/C16/*.json fail and the check reports a violation']
 
@@ -468,6 +468,8 @@ def py_check(case, obs):
         xs = [Fraction(float.fromhex(h)) for h in case['xs_hex']]
         why = _spec_cells(case['method'], cs, list(zip(es, es[1:])), xs, obs['cells'], False, False, 'mask')
         region = 1 if _near_boundary(case['method'], cs, es, xs) else 0
+        if case['method'] == 'bounds' and _bounds_by_search():
+            region = 0          # the cell is found by exact comparisons: no rounding left on this path
         return dict(s_ok=not why, region=region, why='; '.join(why[:3]))
     if case['kind'].startswith('malformed'):
         return dict(s_ok=True, region=0, why='')      # judged by the Coq side (bad option words must raise NotImplementedError)
@@ -531,6 +533,104 @@ def shrink(case):
         yield dict(case, front='val2idx', tunit=None, tzmin=None)
 
 
+_SRCH = ["j = np.searchsorted(dimevals, val, side='right')", 'j = np.clip(j, 1, dimevals.size - 1)',
+         'inside = (val >= dimevals[0]) & (val <= dimevals[-1])', 'fidx = np.where(inside, np.minimum(cidx[j - 1], cidx[j]), fidx)']
+
+
+def _val2idx_statements():
+    import ast
+    path = os.path.join(C.SRC, 'PseudoNetCDF', 'core', '_files.py')
+    tree = ast.parse(open(path).read())
+    fn = None
+    for n in tree.body:
+        if isinstance(n, ast.ClassDef) and n.name == 'PseudoNetCDFFile':
+            for c in n.body:
+                if isinstance(c, ast.FunctionDef) and c.name == 'val2idx':
+                    fn = c
+    if fn is None:
+        return None, None
+    un = lambda n: ast.unparse(n).strip()   # noqa
+    sts = [un(n) for n in ast.walk(fn) if isinstance(n, (ast.Assign, ast.AugAssign, ast.Expr, ast.Return, ast.Raise))]
+    ifs = [un(n.test) for n in ast.walk(fn) if isinstance(n, ast.If)]
+    return sts, ifs
+
+
+def _bounds_by_search():
+    try:
+        sts, _ = _val2idx_statements()
+        return sts is not None and all(x in sts for x in _SRCH)
+    except Exception:   # noqa
+        return False
+
+
+def translate():
+    """Tie T for C16: (1) fail-closed AST obligations — the statements of val2idx / time2idx / date2num that Model/Val2idx.v
+    transcribes are what the source says now; (2) coq/Gen/Val2idxSrc.v is regenerated: whether the bounds path locates the cell
+    with searchsorted (fixes/C16-val2idx-bounds-exact-cell.patch) or by truncating the interpolated index."""
+    import ast
+    from translate import py2coq
+    out = []
+
+    def ob(anchor, ok, detail='statement not found / changed'):
+        out.append(dict(anchor=anchor, ok=bool(ok), detail='' if ok else detail))
+    flag = False
+    try:
+        sts, ifs = _val2idx_statements()
+        if sts is None:
+            ob('PseudoNetCDFFile.val2idx', False, 'function missing')
+        else:
+            flag = all(x in sts for x in _SRCH)
+            ob('val2idx: the bounds path locates the cell with the searchsorted block (fix faed7f7)', flag,
+               'searchsorted block missing: values a few ulp below an edge can be reported in the next cell again')
+            ob('val2idx: bounds path is either interp-truncate or the complete searchsorted block (bounds_by_search)',
+               flag or not any(x in sts for x in _SRCH) and not any('searchsorted' in x for x in sts), 'partial / different searchsorted block')
+            need = [
+                ("dval = np.diff(dimvals) / 2", 'derive_edges: dval'),
+                ("start = dimvals[:1].astype('d')", 'derive_edges: start is a copy'),
+                ("end = dimvals[-1:].astype('d')", 'derive_edges: end is a copy'),
+                ("start -= dval[0]", 'derive_edges: uniform extension'),
+                ("end += dval[-1]", 'derive_edges: uniform extension'),
+                ("dimevals = np.concatenate([start, dimvals[1:] - dval, end])", 'derive_edges: midpoints'),
+                ("dimevals = dimbv[:]", 'edges_of_bvar: 1-D'),
+                ("dimevals = np.append(dimbv[:, 0], dimbv[-1, 1])", 'edges_of_bvar: n x 2'),
+                ("idx = np.arange(dimevals.size)", 'fidx_one: idx0 (bounds)'),
+                ("idx = np.arange(dimvals.size)", 'fidx_one: idx0'),
+                ("ddimevals = np.diff(dimevals)", 'direction test'),
+                ("dimevals = dimevals[::-1]", 'descending: reverse edges'),
+                ("dimvals = dimvals[::-1]", 'descending: reverse centres'),
+                ("idx = idx[::-1]", 'descending: reverse idx'),
+                ("raise ValueError('coordinate is neither ascending nor descending')", 'ENotMono'),
+                ("cidx = np.minimum(idx, dimvals.size - 1)", 'fidx_one: clamp of the index vector'),
+                ("fidx = np.interp(val, dimevals, cidx, left=left, right=right)", 'fidx_one: interp (bounds)'),
+                ("fidx = np.interp(val, dimvals, idx, left=left, right=right)", 'fidx_one: interp (nearest/exact)'),
+                ("fidx = np.ma.masked_where(~np.isin(val, dimvals), fidx)", 'to_cell: exact mask'),
+                ("outfidx = np.ma.masked_where(~np.isfinite(np.ma.getdata(fidx)), fidx)", 'to_cell: clean=mask'),
+                ("isleft = val < dimevals[0]", 'is_out'), ("isright = val > dimevals[-1]", 'is_out'), ("isout = isleft | isright", 'is_out'),
+                ("raise ValueError(outmesg)", 'EOutOfBounds'),
+                ("outidx = np.round(outfidx, 0).astype('i')", 'to_cell: rint'), ("outidx = outfidx.astype('i')", 'to_cell: truncation'),
+                ("return outidx", 'result')]
+            for st, what in need:
+                ob('val2idx: `%s` (%s)' % (st, what), st in sts)
+            for t, what in [("method not in ('exact', 'nearest', 'bounds')", 'bad_opts'), ("bounds not in ('ignore', 'warn', 'error')", 'bad_opts'),
+                            ("clean not in ('none', 'mask')", 'bad_opts'), ("(dval == dval[0]).all()", 'uniform'),
+                            ("(ddimevals < 0).all()", 'all_neg first'), ("(ddimevals > 0).all()", 'all_pos'),
+                            ("method == 'nearest'", 'rint vs trunc'), ("bounds != 'ignore'", 'warn/raise only when requested')]:
+                ob('val2idx: `if %s` (%s)' % (t, what), t in ifs)
+            ob('val2idx: no bare `dimevals[::-1]` expression statement (the no-op of the descending defect)', 'dimevals[::-1]' not in sts)
+        path = os.path.join(C.SRC, 'PseudoNetCDF', 'core', '_files.py')
+        src = open(path).read()
+        ob('date2num: aware datetimes are converted with `t.astimezone(utc).replace(tzinfo=None)`', 't.astimezone(utc).replace(tzinfo=None) for t in time[:]' in src)
+        ob('time2idx: `nums = self.date2num(time, timekey=timekey)` then `return self.val2idx(dim=dim, val=nums, **kwds)`',
+           'nums = self.date2num(time, timekey=timekey)' in src and 'return self.val2idx(dim=dim, val=nums, **kwds)' in src)
+    except Exception as e:   # noqa
+        ob('core/_files.py: parse', False, str(e))
+    text = ('(* GENERATED by harness/props/c16.py translate() from src/PseudoNetCDF/core/_files.py — do not edit. *)\n'
+            '(* true iff the bounds path of val2idx locates the cell inside the domain with np.searchsorted on the edges *)\n'
+            'Definition bounds_by_search : bool := %s.\n' % ('true' if flag else 'false'))
+    py2coq.write_if_changed(os.path.join(C.COQ, 'Gen', 'Val2idxSrc.v'), text)
+    return out
+
+
 LEVEL_TEXT = ('Theorems (Props/C16.v, all closed under the global context) over an exact Gallina model of the repaired val2idx (options, three '
               'bounds representations, edge derivation, direction test with reversal, numpy.interp, index clamp, round/truncate, masking, warning '
               'and ValueError): for strictly monotonic coordinates in BOTH directions, of ANY length and spacing, and EVERY query value, nearest '
@@ -540,7 +640,10 @@ LEVEL_TEXT = ('Theorems (Props/C16.v, all closed under the global context) over 
               '(C16_out_of_range_warned_or_rejected) and never changes the coordinate (C16_coordinate_unchanged); n x 2 rows and derived '
               'midpoint edges reduce to the edge-list case (C16_rows_are_cells, C16_derived_edges_natural). Tie H: library vs model on dyadic '
               'inputs (cells, warning, exception, coordinate after the call); the former failing inputs run first from corpus/C16. Binary64 '
-              '1-ulp edge behaviour is decided by a rational Python oracle only (known finding C16-float-edge).')
+              '1-ulp edge behaviour is decided by a rational Python oracle only (former finding C16-float-edge, repaired by faed7f7: the cell is '
+              'located by exact comparisons; the theorems cover both the old and the new variant). Tie T: '
+              'translate() checks 47 modelled statements of val2idx/time2idx/date2num against the source AST and regenerates '
+              'Gen/Val2idxSrc.v (which bounds variant the source has; C16_model_follows_source).')
 LEVEL_NOTE = ('Trusted: Coq kernel + vm_compute; the correspondence harness; numpy.interp bracket search abstracted to the unique bracketing '
               'segment on ascending xp; binary64 exact/decision-safe on the dyadic stream; cftime date2num exact on dyadic offsets (checked). '
               'Not covered: a composite theorem over spec_outcome (the per-value theorems and the whole-call theorem are separate); masked or '
